@@ -52,7 +52,7 @@ pub fn natural_width(case: &Case) -> Option<usize> {
 
 pub static C01: E1Prop = E1Prop {
     id: "C01",
-    oracle: oracle::c01,
+    oracle: |c, o, _| oracle::c01(c, o),
     rule: "T0: every pinned corpus file x 25 catalogue configurations; T1: grammar-generated programs (all six syntaxes, statement-level comments, random configuration, optional range, optional require sorting). Oracle: output re-parses with full_moon under the same syntax and the checker's lexer accepts it. Non-trivial: output differs from input and the input has >= 6 code tokens; distinct by hash of (source, config, range).",
     gen_case: gen_c01,
     quick_cases: 40_000,
@@ -60,11 +60,12 @@ pub static C01: E1Prop = E1Prop {
     use_t0: true,
     tape_len: 600,
     assumptions: &[],
+    extra: None,
 };
 
 pub static C02: E1Prop = E1Prop {
     id: "C02",
-    oracle: oracle::c02,
+    oracle: |c, o, _| oracle::c02(c, o),
     rule: "T0 + T1 as C01 with sort_requires off. Oracle: semantic normal form N (own walk over full_moon's tree: parentheses, semicolons, separators, quote/escape/number spelling and call sugar erased, truncating parentheses kept) and semantic token sequence T (own lexer) are equal for input and output. Non-trivial: output differs and the input contains a redundant parenthesis, semicolon, escape / single-quoted string, leading-dot number or call sugar.",
     gen_case: gen_c02,
     quick_cases: 40_000,
@@ -72,11 +73,12 @@ pub static C02: E1Prop = E1Prop {
     use_t0: true,
     tape_len: 600,
     assumptions: &["N erases exactly the differences the property allows; `(f())` / `(...)` are kept only in multi-value positions"],
+    extra: None,
 };
 
 pub static C03: E1Prop = E1Prop {
     id: "C03",
-    oracle: oracle::c03,
+    oracle: |c, o, _| oracle::c03(c, o),
     rule: "T0 + T1 (programs with comments in whitelisted statement-level roles, shebang, all comment forms). Oracle: multiset of comments (own lexer; line comments right-trimmed, CRLF->LF inside block comments) is unchanged and the code token sequence T is unchanged. Non-trivial: at least one comment and output differs from input.",
     gen_case: gen_c03,
     quick_cases: 40_000,
@@ -84,11 +86,12 @@ pub static C03: E1Prop = E1Prop {
     use_t0: true,
     tape_len: 600,
     assumptions: &[],
+    extra: None,
 };
 
 pub static C06: E1Prop = E1Prop {
     id: "C06",
-    oracle: oracle::c06,
+    oracle: |c, o, _| oracle::c06(c, o),
     rule: "T0 + T1 without range. Oracle: format(format(p,c),c) == format(p,c) byte for byte. Non-trivial: first output differs from the input and has >= 2 lines.",
     gen_case: gen_c06,
     quick_cases: 30_000,
@@ -96,6 +99,7 @@ pub static C06: E1Prop = E1Prop {
     use_t0: true,
     tape_len: 600,
     assumptions: &[],
+    extra: None,
 };
 
 pub fn e1_prop(id: &str) -> Option<&'static E1Prop> {
@@ -104,6 +108,336 @@ pub fn e1_prop(id: &str) -> Option<&'static E1Prop> {
         "C02" => Some(&C02),
         "C03" => Some(&C03),
         "C06" => Some(&C06),
+        "C07" => Some(&C07),
+        "C10" => Some(&C10),
+        "C11" => Some(&C11),
         _ => None,
+    }
+}
+
+// ---------------------------------------------------------------------------------------------
+// C10
+
+/// re-renders the whitespace of a generated source: newline convention and indentation characters
+fn rewhitespace(src: &str, newline_mode: usize, indent_mode: usize) -> String {
+    let mut out = String::with_capacity(src.len() + 16);
+    let mut line_no = 0usize;
+    for line in src.split_inclusive('\n') {
+        let (body, had_nl) = match line.strip_suffix('\n') {
+            Some(b) => (b.strip_suffix('\r').unwrap_or(b), true),
+            None => (line, false),
+        };
+        // indentation
+        let ws_len = body.len() - body.trim_start_matches(|c| c == '\t' || c == ' ').len();
+        let (ws, rest) = body.split_at(ws_len);
+        match indent_mode {
+            0 => out.push_str(ws),
+            1 => {
+                for c in ws.chars() {
+                    out.push_str(if c == '\t' { "    " } else { " " });
+                }
+            }
+            2 => {
+                for c in ws.chars() {
+                    out.push_str(if c == '\t' { "  " } else { " " });
+                }
+            }
+            _ => {
+                // mixed
+                for (i, c) in ws.chars().enumerate() {
+                    if c == '\t' && (i + line_no) % 2 == 0 {
+                        out.push_str("   ");
+                    } else {
+                        out.push(c);
+                    }
+                }
+            }
+        }
+        out.push_str(rest);
+        if had_nl {
+            match newline_mode {
+                0 => out.push('\n'),
+                1 => out.push_str("\r\n"),
+                _ => out.push_str(if line_no % 3 == 1 { "\r\n" } else { "\n" }),
+            }
+        }
+        line_no += 1;
+    }
+    out
+}
+
+fn gen_c10(t: &mut Tape, l: &mut Vec<&'static str>) -> Option<Case> {
+    let newline_mode = t.pick(3);
+    let indent_mode = t.pick(4);
+    let mut case = gen_standard(t, l, GenOpts::stmt_comments(), true, false)?;
+    case.source = rewhitespace(&case.source, newline_mode, indent_mode);
+    l.push(["nl:lf", "nl:crlf", "nl:mixed"][newline_mode]);
+    l.push(["indent:tabs", "indent:4sp", "indent:2sp", "indent:mixed"][indent_mode]);
+    Some(case)
+}
+
+pub static C10: E1Prop = E1Prop {
+    id: "C10",
+    oracle: |c, o, _| oracle::c10(c, o),
+    rule: "T0 (corpus files without ignore directives x 25 configurations) + T1: generated programs re-rendered with LF / CRLF / mixed newlines and tab / space / mixed indentation, random (line_endings, indent_type, indent_width, column_width). Oracle on the output bytes, masked by the checker's lexer: outside string literals every LF is preceded by CR iff Windows and no other CR occurs; every line starting outside a multi-line token is indented with tabs only (Tabs) or a multiple of indent_width spaces (Spaces); non-empty output ends with exactly one line ending. Non-trivial: the input's newline convention / indentation / final newline differs from the configured one and the output differs from the input.",
+    gen_case: gen_c10,
+    quick_cases: 60_000,
+    thorough_cases: 2_000_000,
+    use_t0: true,
+    tape_len: 600,
+    assumptions: &["interior lines of block comments and long strings are content for the indentation rule; string literal contents are exempt from the line-ending rule"],
+    extra: None,
+};
+
+// ---------------------------------------------------------------------------------------------
+// C11
+
+fn gen_c11(t: &mut Tape, l: &mut Vec<&'static str>) -> Option<Case> {
+    gen_standard(t, l, GenOpts::stmt_comments(), true, false)
+}
+
+pub static C11: E1Prop = E1Prop {
+    id: "C11",
+    oracle: |c, o, _| oracle::c11(c, o),
+    rule: "T0 + T1 over all 4 quote styles x 5 call-parentheses modes x 4 space modes x widths. Oracle on the re-parsed output: every quoted string uses the quote its style demands (counting quote characters in the body), every call site has the form its mode demands (Always: parentheses; None/NoSingle*: no parentheses around a single plain string/table argument unless an index or method call follows; Input: sequence of forms unchanged), and the gap before every call / definition `(` on the same line is one space exactly when the option names that case. Non-trivial: the program has a string with an inner quote or single quotes, a sugar call or a single-literal call, or a non-default space option, and the output differs from the input.",
+    gen_case: gen_c11,
+    quick_cases: 60_000,
+    thorough_cases: 2_000_000,
+    use_t0: true,
+    tape_len: 600,
+    assumptions: &["programs containing `-- stylua: ignore` are skipped (ignored code is exempt)", "known finding KF-C11-parenthesised-single-argument: inputs with a call whose single argument is wrapped in redundant parentheses are excluded under None/NoSingle*"],
+    extra: None,
+};
+
+// ---------------------------------------------------------------------------------------------
+// C07
+
+fn gen_c07(t: &mut Tape, l: &mut Vec<&'static str>) -> Option<Case> {
+    let mode = t.pick(10);
+    let width_mode = t.pick(6);
+    let verify = t.chance(64);
+    let cut_a = t.pick_wide(4096);
+    let cut_b = t.pick_wide(4096);
+    let range_mode = t.pick(8);
+    let mut case = gen_standard(t, l, GenOpts { ignores: true, ..GenOpts::stmt_comments() }, true, false)?;
+    match width_mode {
+        0 => case.cfg.column_width = 1,
+        1 => case.cfg.column_width = 2,
+        2 => case.cfg.column_width = usize::MAX,
+        3 => case.cfg.column_width = usize::MAX - 1,
+        _ => {}
+    }
+    case.verify = verify;
+    if verify {
+        l.push("verify");
+    }
+    let n = case.source.len();
+    let at = |x: usize| x * (n + 1) / 4096;
+    match range_mode {
+        0 => {
+            case.range = Some((Some(at(cut_a)), Some(at(cut_b))));
+            l.push("range:any-order");
+        }
+        1 => {
+            case.range = Some((Some(n + 10 + cut_a), Some(n + 5)));
+            l.push("range:out-of-bounds");
+        }
+        2 => {
+            case.range = Some((None, Some(at(cut_a))));
+            l.push("range:open-start");
+        }
+        3 => {
+            case.range = Some((Some(at(cut_a)), None));
+            l.push("range:open-end");
+        }
+        4 => {
+            case.range = Some((Some(at(cut_a)), Some(at(cut_a))));
+            l.push("range:empty");
+        }
+        _ => {}
+    }
+    match mode {
+        7 => {
+            // truncation at a random byte (kept on a char boundary: the sources are ASCII)
+            let k = at(cut_b).min(n);
+            if case.source.is_char_boundary(k) {
+                case.source.truncate(k);
+            }
+            l.push("invalid:truncated");
+        }
+        8 => {
+            // splice: second half moved in front of the first half
+            let k = at(cut_b).min(n);
+            if case.source.is_char_boundary(k) {
+                let (a, b) = case.source.split_at(k);
+                case.source = format!("{b}{a}");
+            }
+            l.push("invalid:spliced");
+        }
+        9 => {
+            // delete a slice
+            let (mut a, mut b) = (at(cut_a).min(n), at(cut_b).min(n));
+            if a > b {
+                std::mem::swap(&mut a, &mut b);
+            }
+            if case.source.is_char_boundary(a) && case.source.is_char_boundary(b) {
+                case.source.replace_range(a..b.min(a + 12), "");
+            }
+            l.push("invalid:deleted-slice");
+        }
+        _ => l.push("valid"),
+    }
+    Some(case)
+}
+
+pub static C07: E1Prop = E1Prop {
+    id: "C07",
+    oracle: |c, o, t| {
+        let v = oracle::c07(c, o, t);
+        // panics at locations that are known findings are excluded (counted by the caller through Skip)
+        if let Verdict::Fail(d) = &v {
+            if d.starts_with("panic:") && oracle::known_panic(d).is_some() && oracle::parses(&c.source, c.cfg.syntax).is_err() {
+                return Verdict::Skip("KF-C07-fullmoon-parser-panic");
+            }
+        }
+        v
+    },
+    rule: "T0 (corpus x catalogue incl. width 1 and usize::MAX) + T1: generated valid programs under extreme widths, every range form (any order, empty, out of bounds, open), verify mode on/off, ignore directives; invalid inputs by truncation / splicing / slice deletion of generated programs; + scaling families P(d) for every recursive construct. Oracle: no panic; Ok exactly when the trusted parser accepts the input, ParseError exactly when it rejects it; formatter ticks (deterministic node-visit counter, hook H1) <= max(10^6, 5000 x input bytes); for families the tick growth ratio ticks(d+1)/ticks(d) over the top third of depths stays below 1.6. Non-trivial: every evaluated case (each one exercises the totality claim).",
+    gen_case: gen_c07,
+    quick_cases: 400_000,
+    thorough_cases: 4_000_000,
+    use_t0: true,
+    tape_len: 600,
+    assumptions: &[
+        "work is measured in formatter ticks, not time; a real hang would show as an exceeded tick budget (controlled unwind)",
+        "nesting depth of generated programs is bounded (<= ~12): stack exhaustion at depth ~100 (do-blocks) / ~500 (parentheses) is a recorded finding, observed only in child processes",
+    ],
+    extra: Some(c07_scaling),
+};
+
+use crate::oracle::Verdict;
+use crate::run::{Finding, Reporter, Stats, Tier};
+
+struct Family {
+    name: &'static str,
+    make: fn(usize) -> String,
+    max_depth: usize,
+}
+
+fn nest(open: &str, inner: &str, close: &str, d: usize) -> String {
+    let mut s = String::new();
+    for _ in 0..d {
+        s.push_str(open);
+    }
+    s.push_str(inner);
+    for _ in 0..d {
+        s.push_str(close);
+    }
+    s
+}
+
+const FAMILIES: [Family; 15] = [
+    Family { name: "call-in-argument", make: |d| format!("local x = {}\n", nest("f(", "1", ")", d)), max_depth: 40 },
+    Family { name: "fn-in-call", make: |d| format!("{}\n", nest("f(function() return ", "1", " end)", d)), max_depth: 14 },
+    Family { name: "fn-in-call-stmt", make: |d| format!("{}\n", nest("run(function()\n", "x = 1\n", "end)\n", d)), max_depth: 24 },
+    Family { name: "fn-in-table", make: |d| format!("local t = {}\n", nest("{ f = function()\nreturn ", "1", "\nend }", d)), max_depth: 24 },
+    Family { name: "call-chain-args", make: |d| format!("local x = {}\n", nest("obj:method(1, ", "2", ")", d)), max_depth: 30 },
+    Family { name: "table-in-table", make: |d| format!("local t = {}\n", nest("{ a = ", "1", " }", d)), max_depth: 40 },
+    Family { name: "paren-in-paren", make: |d| format!("local x = {} + 1\n", nest("(", "a + b", ")", d)), max_depth: 40 },
+    Family { name: "binary-chain", make: |d| format!("local x = a{}\n", " + someLongName".repeat(d * 4)), max_depth: 40 },
+    Family { name: "unary-chain", make: |d| format!("local x = {}a\n", "not ".repeat(d)), max_depth: 40 },
+    Family { name: "block-nesting", make: |d| format!("{}\n", nest("do\n", "local x = 1\n", "end\n", d)), max_depth: 40 },
+    Family { name: "if-nesting", make: |d| format!("{}\n", nest("if a then\n", "return 1\n", "end\n", d)), max_depth: 40 },
+    Family { name: "method-chain", make: |d| format!("local x = obj{}\n", ":method(arg1, arg2)".repeat(d * 2)), max_depth: 40 },
+    Family { name: "index-chain", make: |d| format!("local x = obj{}\n", ".field[1]".repeat(d * 2)), max_depth: 40 },
+    Family { name: "concat-strings", make: |d| format!("local s = \"a\"{}\n", " .. \"some string\"".repeat(d * 4)), max_depth: 40 },
+    Family { name: "table-wide", make: |d| format!("local t = {{ {} }}\n", "someFieldName = 1, ".repeat(d * 8)), max_depth: 40 },
+];
+
+const LUAU_FAMILIES: [Family; 4] = [
+    Family { name: "luau:union-nesting", make: |d| format!("type T = {}\n", nest("(number | ", "string", ")", d)), max_depth: 30 },
+    Family { name: "luau:callback-nesting", make: |d| format!("type T = {}\n", nest("(x: number) -> (", "string", ")", d)), max_depth: 30 },
+    Family { name: "luau:generic-nesting", make: |d| format!("type T = {}\n", nest("Array<", "string", ">", d)), max_depth: 30 },
+    Family { name: "luau:if-expression", make: |d| format!("local x = {}\n", nest("if a then 1 else (", "2", ")", d)), max_depth: 30 },
+];
+
+/// tick budget for one member of a scaling family (an exponential family stops here)
+const FAMILY_BUDGET: u64 = 4_000_000;
+
+fn c07_scaling(rep: &mut Reporter, stats: &mut Stats, tier: Tier, findings: &[Finding]) {
+    use crate::cfg::Cfg;
+    use crate::engine::{run_format_budget, Outcome};
+    use crate::lex::Syntax;
+    let widths: &[usize] = if tier == Tier::Thorough { &[120, 40, 1, usize::MAX] } else { &[120, 1] };
+    let mut all: Vec<(&Family, Syntax)> = FAMILIES.iter().map(|f| (f, Syntax::Lua51)).collect();
+    all.extend(LUAU_FAMILIES.iter().map(|f| (f, Syntax::Luau)));
+    let mut items: Vec<(&Family, Syntax, usize)> = Vec::new();
+    for (fam, syn) in all {
+        for &w in widths {
+            items.push((fam, syn, w));
+        }
+    }
+    let results = crate::engine::par_map(&items, |_, (fam, syn, w)| {
+        let (fam, syn, w) = (*fam, *syn, *w);
+        let mut ticks: Vec<u64> = Vec::new();
+        let mut failure: Option<(usize, String, Case)> = None;
+        let mut hashes = Vec::new();
+        for d in 1..=fam.max_depth {
+            let case = Case::new((fam.make)(d), Cfg { column_width: w, ..Cfg::default_for(syn) });
+            // budget: generous polynomial bound so that an exponential family stops early
+            let (out, t) = run_format_budget(&case, FAMILY_BUDGET);
+            hashes.push(case.hash64());
+            match out {
+                Outcome::Ok(_) => ticks.push(t.max(1)),
+                Outcome::Budget(_) => {
+                    failure = Some((d, format!("tick budget of {FAMILY_BUDGET} exceeded at depth {d} ({} input bytes)", case.source.len()), case));
+                    break;
+                }
+                other => {
+                    failure = Some((d, format!("depth {d}: {other:?}"), case));
+                    break;
+                }
+            }
+        }
+        if failure.is_none() && ticks.len() >= 9 {
+            let n = ticks.len();
+            let from = n - n / 3 - 1;
+            let mut ratios: Vec<f64> = (from..n - 1).map(|i| ticks[i + 1] as f64 / ticks[i] as f64).collect();
+            ratios.sort_by(|a, b| a.partial_cmp(b).unwrap());
+            // median, so that one jump (the line crossing the column width) does not count as growth
+            let median = ratios[ratios.len() / 2];
+            if median >= 1.5 {
+                let d = n;
+                let case = Case::new((fam.make)(d), Cfg { column_width: w, ..Cfg::default_for(syn) });
+                failure = Some((d, format!("formatter work grows by a factor {:.2} per nesting level (ticks at the last depths: {:?})", median, &ticks[n - 4..]), case));
+            }
+        }
+        (ticks, failure, hashes)
+    });
+    for ((fam, _syn, w), (ticks, failure, hashes)) in items.iter().zip(results.into_iter()) {
+        for h in hashes {
+            stats.count("scaling-families");
+            stats.nontrivial.insert(h);
+        }
+        stats.label(&format!("family:{}", fam.name));
+        if let Some((_, detail, case)) = failure {
+            let known = findings.iter().find(|f| f.what.contains(&format!("family={}", fam.name)));
+            match known {
+                Some(f) => {
+                    *stats.excluded.entry(f.id.clone()).or_default() += 1;
+                    let what = f.what.clone();
+                    let id = f.id.clone();
+                    rep.known(&id, &what);
+                }
+                None => {
+                    let mut v = crate::e1::replay_value("C07", &case, &format!("scaling family {} at width {}: {}", fam.name, case.cfg.label(), detail), "scaling-family");
+                    v["family"] = serde_json::json!(fam.name);
+                    rep.violation(v, "family");
+                }
+            }
+        } else if stats.samples.len() < 4 {
+            let d = ticks.len();
+            stats.samples.push(serde_json::json!({ "origin": format!("family:{} width:{}", fam.name, w), "depths": d, "ticks_first_last": [ticks.first(), ticks.last()] }));
+        }
     }
 }
